@@ -95,7 +95,7 @@ static int c02_main(int argc,char **argv){
       memset(&op,0,sizeof op); op.packet=b.p; op.bytes=b.n; op.b_o_s=atoi(tok[1]);
       rc=vorbis_synthesis_headerin(&c2vi,&c2vc,&op);
       printf("hdr rc=%s",ovname(rc));
-      if(rc==0&&b.n>0&&b.p[0]==1) printf(" ch=%d rate=%ld bs0=%ld bs1=%ld",c2vi.channels,c2vi.rate,((codec_setup_info*)c2vi.codec_setup)->blocksizes[0],((codec_setup_info*)c2vi.codec_setup)->blocksizes[1]);
+      if(rc==0&&b.n>0&&b.p[0]==1) printf(" ch=%d rate=%ld bs0=%ld bs1=%ld br=%ld,%ld,%ld",c2vi.channels,c2vi.rate,((codec_setup_info*)c2vi.codec_setup)->blocksizes[0],((codec_setup_info*)c2vi.codec_setup)->blocksizes[1],c2vi.bitrate_upper,c2vi.bitrate_nominal,c2vi.bitrate_lower);
       putchar('\n');
       if(rc==0&&b.n>0&&b.p[0]==5&&!hadbooks) c2_dump();
       free(b.p);
